@@ -201,6 +201,11 @@ pub fn key_of(seed: u64, idx: u16) -> [u8; 32] {
 }
 
 pub fn start_node_with(fabric: &Fabric, idx: u16, key: [u8; 32], name: &str, alt: Option<&str>, cfg: Config) -> anyhow::Result<Node> {
+    start_node_opts(fabric, idx, key, name, alt, cfg, false)
+}
+
+/// `custom_outbound_layer`: also install a (transparent) user outbound request layer
+pub fn start_node_opts(fabric: &Fabric, idx: u16, key: [u8; 32], name: &str, alt: Option<&str>, cfg: Config, custom_outbound_layer: bool) -> anyhow::Result<Node> {
     let addr = Fabric::addr(idx);
     let sock = fabric.socket(addr);
     let svc = Svc::new();
@@ -208,6 +213,9 @@ pub fn start_node_with(fabric: &Fabric, idx: u16, key: [u8; 32], name: &str, alt
     let mut b = Network::bind("127.0.0.1:0").private_key(key).server_name(name).config(cfg).verif_socket(sock);
     if let Some(a) = alt {
         b = b.alternate_server_name(a);
+    }
+    if custom_outbound_layer {
+        b = b.outbound_request_layer(tower::layer::util::Identity::new());
     }
     let net = b.start(svc)?;
     let id = net.peer_id();
